@@ -22,6 +22,7 @@ META = dict(
     required_hits=["rust_points_compared", "tensor_bytes_compared", "history_archives", "shim_lz4_checked", "shim_npz_checked", "shim_yaml_checked", "shim_tar_checked"],
     max_inconclusive_frac=0.05,
 )
+META["level_text"] += ' Bytes after the first complete LZ4 frame of an operator member are a violation.'
 
 RTOL, ATOL = 1e-5, 1e-3  # documented tolerance of dekoder::eko::EvolutionPoint
 
